@@ -47,6 +47,14 @@ def main(args):
     output_path = ctx.output_path
     cwd = pathlib.Path.cwd()
     assert output_path.is_absolute()
+
+    def to_display(path: pathlib.Path) -> str:
+        # Compute a relative path to the current working directory, if possible
+        try:
+            return str(path.relative_to(cwd))
+        except ValueError:
+            return str(path)
+
     stack = [output_path]
     while len(stack) > 0:
         curr_path = stack.pop()
@@ -75,9 +83,9 @@ def main(args):
 
         if args.dry_run:
             for exp_path in to_delete:
-                print("Would delete", str(exp_path.relative_to(cwd)))
+                print("Would delete", to_display(exp_path))
         else:
             for exp_path in to_delete:
                 if args.verbose:
-                    print("Deleting", str(exp_path.relative_to(cwd)))
+                    print("Deleting", to_display(exp_path))
                 shutil.rmtree(exp_path, ignore_errors=True)
